@@ -199,9 +199,16 @@ class Generator:
             else:
                 pre = normtok(u.sel[0])
                 c = [l for l in fn['loops'] if normtok(src[l['span'][0]:l['body'][0]].decode()).startswith(pre)]
-                if len(c) != 1:
-                    raise GenError(f'lost-anchor: loop "{u.sel[0]}" in {u.fnpath}: {len(c)} candidates')
-                span = c[0]['body']
+                if len(u.sel) > 1 and u.sel[1].startswith('#'):
+                    # `"<header prefix>" #k of n`: the k-th of exactly n loops with that header (n pins the shape of the function)
+                    k, want_n = int(u.sel[1][1:]), int(u.sel[3]) if len(u.sel) > 3 and u.sel[2] == 'of' else None
+                    if len(c) <= k or (want_n is not None and len(c) != want_n):
+                        raise GenError(f'lost-anchor: loop "{u.sel[0]}" #{k} in {u.fnpath}: {len(c)} candidates')
+                    span = c[k]['body']
+                else:
+                    if len(c) != 1:
+                        raise GenError(f'lost-anchor: loop "{u.sel[0]}" in {u.fnpath}: {len(c)} candidates')
+                    span = c[0]['body']
             wrap = False
         else:
             raise GenError(f'bad unit kind {u.kind}')
@@ -223,6 +230,7 @@ class Generator:
         rbstr_on = any(rw[0] == 'RBSTR' for rw in u.rewrites)
         rct_taken = set()
         guarded_spans = []
+        carried = set()   # ids of edits (made by rewrites listed BEFORE RGUARD) that RGUARD also applied to its copy of the else-body
         deref_bodies = {}
 
         def text_of(s, e):
@@ -447,7 +455,24 @@ class Generator:
                         continue
                     g = a0['guard']
                     gtxt = src[g['expr'][0]:g['expr'][1]].decode()
-                    etxt = text_of(a1['body'][0], a1['body'][1])
+                    # the guard moves and the else-body is duplicated: the moved / copied text carries the textual rewrites already
+                    # registered inside it (rewrites listed BEFORE RGUARD in the unit); splices (hints) inside cannot be carried
+                    def carry(s, e, drop=False):
+                        inner = sorted([x for x in edits if s <= x[0] and x[1] <= e], key=lambda x: x[0])
+                        if any(isinstance(x[2], tuple) for x in inner) or any(b[0] < a[1] for a, b in zip(inner, inner[1:])):
+                            raise GenError(f'unsupported: hint or overlapping rewrites inside text moved by RGUARD in {u.fnpath}')
+                        if not inner:
+                            return text_of(s, e)
+                        out, pos = '', s
+                        for x in inner:
+                            out += src[pos:x[0]].decode() + x[2]
+                            pos = x[1]
+                            carried.add(id(x))
+                            if drop:
+                                edits.remove(x)     # the original place of this text is deleted by RGUARD
+                        return out + src[pos:e].decode()
+                    gtxt = carry(g['expr'][0], g['expr'][1], drop=True)
+                    etxt = carry(a1['body'][0], a1['body'][1])
                     guarded_spans.append((g['if'][0], g['expr'][1]))
                     guarded_spans.append(tuple(a1['body']))
                     add_edit(g['if'][0], g['expr'][1], '', 'RGUARD')
@@ -534,7 +559,7 @@ class Generator:
 
         for (gs, ge) in guarded_spans:
             for x in edits:
-                if x[3] != 'RGUARD' and gs <= x[0] and x[1] <= ge and not (x[0] == x[1] == gs) and not (x[3] == 'RBSTR'):
+                if x[3] != 'RGUARD' and id(x) not in carried and gs <= x[0] and x[1] <= ge and not (x[0] == x[1] == gs) and not (x[3] == 'RBSTR'):
                     raise GenError(f'unsupported: rewrite {x[3]} inside a guard / else-body moved by RGUARD in {u.fnpath}')
         # an RBSTR edit inside a larger replacement is already carried by that replacement (text_of)
         edits = [x for x in edits if not (x[3] == 'RBSTR' and any(y is not x and y[3] != 'RBSTR' and y[0] <= x[0] and x[1] <= y[1] and not isinstance(y[2], tuple) for y in edits))]
